@@ -197,6 +197,26 @@ class Model:
         return arr(q), set(q[-3:]) | set(k[-3:-2])
 
     @staticmethod
+    def einsum(arrays, p):
+        eq = p.get("equation")
+        if not isinstance(eq, str) or "->" not in eq or "." in eq:
+            raise Unsupported("einsum equation form")
+        lhs, out = eq.replace(" ", "").split("->")
+        terms = lhs.split(",")
+        if len(terms) != len(arrays):
+            raise EvalRaise("ValueError")
+        letter: Dict[str, str] = {}
+        for term, a in zip(terms, arrays):
+            L = labels_of(a)
+            if len(term) != len(L):
+                raise AxisViolation(f"einsum term `{term}` is applied to an operand laid out as {L}")
+            for ch, l in zip(term, L):
+                if letter.setdefault(ch, l) != l and "1" not in (l, letter[ch]):
+                    raise AxisViolation(f"einsum index `{ch}` names axis `{letter[ch]}` of one operand and axis `{l}` of another")
+        contracted = {letter[ch] for ch in letter if ch not in out}
+        return arr(tuple(letter[ch] for ch in out)), contracted
+
+    @staticmethod
     def trailing(arrays, p):
         """acts on the last k axes of the operand (k: fixed, or every axis of one example); the layout is kept"""
         L = labels_of(arrays[0])
@@ -323,7 +343,7 @@ class Model:
         return arr(L[:pos] + ("N",) + L[pos:]), set()
 
 
-KINDS: Dict[str, Callable[..., Any]] = {k: getattr(Model, k) for k in ("elementwise", "broadcast", "attention", "matmul", "dot", "whole", "outer", "diag", "second", "trailing", "along", "preserve", "reduce", "size", "insert", "stack", "concat", "squeeze", "transpose", "split", "unstack", "take", "diagonal", "linspace")}
+KINDS: Dict[str, Callable[..., Any]] = {k: getattr(Model, k) for k in ("elementwise", "broadcast", "einsum", "attention", "matmul", "dot", "whole", "outer", "diag", "second", "trailing", "along", "preserve", "reduce", "size", "insert", "stack", "concat", "squeeze", "transpose", "split", "unstack", "take", "diagonal", "linspace")}
 
 
 class Spec:
